@@ -314,6 +314,8 @@ RULES = [
 
 from . import shared
 RULES = RULES + shared.bundle('C02', [], ['weights'])
+from .. import refs as _refs
+RULES = RULES + [_refs.ref_rule('C02')]
 
 
 def run(tier="quick", replay=None):
